@@ -7,6 +7,13 @@
               old_criterion, ro, converged, the best-state update, the stop decision, the final status and point;
               the rounded double operations of the loop are passed to the model as IEEE operations on exactly
               converted values
+     ALO / ALOIT / ALOEND (extension "outer") -> the complete loop [alo_step] of C05_Outer_Defs: make_ro1 recomputed from
+              the initial state (exact when clamped, 1e-12 relative otherwise: h.dot(h) is an Eigen reduction), the
+              multipliers lambda / miu of every inner solve recomputed from the previous iteration (bit-exact), the
+              dx-convergence flag recomputed from the points (bit-exact), the multipliers stored in the returned state
+     PS / PSIT / PSEND (extension "outer") -> the outer loop [ps_step] of solver_penalty_t::minimize: penalty sequence
+              (bit-exact), skip / converged / stop decisions, status, best point = last usable inner solution
+              re-evaluated on the original function
    Prints `MISMATCH <what> <id> ...` (model <> implementation), `PROPFAIL <what> <id> ...` (the property's own
    conclusion fails on implementation data) and a final `MODEL-DONE checked=<n> mismatches=<m>`.
    NB: compiled by tools/checks/c05.py after `open C05_model` (Z is Zarith here: no zutil.ml.inc). *)
@@ -225,10 +232,17 @@ let ieee op = fun a b -> let r = op (float_of_q a) (float_of_q b) in if Float.is
 let rops_ieee = { rmul = ieee ( *. ); radd = ieee ( +. ); rdiv = ieee ( /. ) }
 
 type alrun = { id : string; params : al_params; x0 : q list; ceq0 : q list; cineq0 : q list;
-               mutable st : al_state option; mutable dead : bool; mutable iters : int; header : string }
+               mutable st : al_state option; mutable dead : bool; mutable iters : int; header : string;
+               (* extension "outer" *)
+               mutable f0 : q option; mutable ost : alo_state option; mutable pending : (q list * q list) option;
+               mutable odead : bool }
 let cur : alrun option ref = ref None
 let al_runs = ref 0
 let al_steps = ref 0
+let alo_steps = ref 0
+let alo_ro1_exact = ref 0
+let ps_runs = ref 0
+let ps_steps = ref 0
 
 let status_code = function MaxIters -> 0 | Converged -> 1 | Failed -> 2
 
@@ -241,10 +255,196 @@ let check_al line =
        let params = { p_eps = qf eps; p_tau = qf tau; p_gamma = qf gamma; p_miu_max = qf miu_max; p_lmin = qf lmin;
                       p_lmax = qf lmax; p_max_outers = B.big_int_of_int (int_of_string max_outers) } in
        cur := Some { id; params; x0 = qvec x0; ceq0 = qvec ceq0; cineq0 = qvec cineq0; st = None; dead = false; iters = 0;
-                     header = line };
+                     header = line; f0 = None; ost = None; pending = None; odead = false };
        incr al_runs
      with Nonfinite -> (cur := None; incr skipped))
   | _ -> failwith ("bad AL line: " ^ line)
+
+(* ---- extension "outer": the complete loop ------------------------------------------------------------------- *)
+let tol12 = { qnum = B.unit_big_int; qden = B.power_int_positive_int 10 12 }
+
+let check_alo line =
+  match !cur, fields line with
+  | Some run, [hdr; f0] ->
+    (match split ' ' hdr with
+     | [_; id] when id = run.id -> (try run.f0 <- Some (qf f0) with Nonfinite -> run.odead <- true)
+     | _ -> failwith ("ALO without AL: " ^ line))
+  | _ -> ()
+
+let check_aloit line =
+  match !cur, fields line with
+  | Some run, [hdr; lambda; miu] ->
+    (match split ' ' hdr with
+     | [_; id; _] when id = run.id ->
+       (try run.pending <- Some (qvec lambda, qvec miu) with Nonfinite -> run.odead <- true)
+     | _ -> failwith ("ALOIT without AL: " ^ line))
+  | _ -> ()
+
+(* one outer iteration of the complete model; [e] is the event of the ALIT line (its dx flag is NOT used: alo_step
+   recomputes it), ro / old / conv / stop / bx / status are the implementation's *)
+let check_alo_step run e ro old conv stop bx status outer line =
+  match run.f0, run.pending with
+  | _ when run.odead -> ()
+  | Some f0, Some (lambda, miu) ->
+    run.pending <- None;
+    let bad what detail = report "MISMATCH" what run.id (detail ^ " :: " ^ line ^ " :: " ^ run.header) in
+    let os = (match run.ost with
+        | Some os -> os
+        | None ->
+          let os = alo_init rops_ieee f0 run.x0 run.ceq0 run.cineq0 in
+          (* make_ro1: the clamps give bit-exact values; in between the Eigen dot products round differently *)
+          let mro = os.o_core.s_ro in
+          incr total;
+          if qeq mro ro then incr alo_ro1_exact
+          else if not (qle (qabs (mro -/ ro)) (tol12 */ qabs ro)) then bad "alo-ro1" ("model=" ^ string_of_q mro);
+          os) in
+    incr total; incr alo_steps;
+    let c = os.o_core in
+    if not (alo_running run.params os) then bad "alo-extra-iteration" "the model's loop had already ended";
+    if B.int_of_big_int c.s_outer <> outer then bad "alo-outer" (Printf.sprintf "model=%d" (B.int_of_big_int c.s_outer));
+    let first = (match run.ost with None -> true | Some _ -> false) in
+    if (not first) && not (qeq c.s_ro ro) then bad "alo-ro" ("model=" ^ string_of_q c.s_ro);
+    if not (qeq c.s_old old) then bad "alo-old-criterion" ("model=" ^ string_of_q c.s_old);
+    (* the multipliers this inner solve used = what the model computed at the end of the previous iteration *)
+    if not (veq c.s_lambda lambda) then bad "alo-lambda" ("model=" ^ string_of_vec c.s_lambda ^ " impl=" ^ string_of_vec lambda);
+    if not (veq c.s_miu miu) then bad "alo-miu" ("model=" ^ string_of_vec c.s_miu ^ " impl=" ^ string_of_vec miu);
+    if List.exists (fun m -> not (qle qz m)) miu then report "PROPFAIL" "alo-miu-negative" run.id (line ^ " :: " ^ run.header);
+    (* continue from the implementation's values so that one deviation is reported once *)
+    let os = { os with o_core = { c with s_ro = ro; s_old = old; s_lambda = lambda; s_miu = miu };
+                       o_bro = (if first then ro else os.o_bro); o_bcrit = (if first then old else os.o_bcrit) } in
+    let e' = alo_event rops_ieee run.params os e in
+    let mconv = al_step_converged rops_ieee run.params os.o_core e' in
+    if mconv <> conv then bad "alo-converged" (Printf.sprintf "model=%b (dx flag computed by the model: %b)" mconv e'.e_dx);
+    let os' = alo_step rops_ieee run.params os e in
+    if not (veq os'.o_core.s_x bx) then bad "alo-best-state" ("model x=" ^ string_of_vec os'.o_core.s_x);
+    if os'.o_core.s_stopped <> stop then bad "alo-stop" (Printf.sprintf "model=%b" os'.o_core.s_stopped);
+    if os'.o_core.s_stopped && status_code os'.o_core.s_status <> status then
+      bad "alo-status" (Printf.sprintf "model=%d" (status_code os'.o_core.s_status));
+    run.ost <- Some os'
+  | _ -> ()
+
+let check_aloend line =
+  match !cur with
+  | None -> ()
+  | Some run when run.dead || run.odead -> ()
+  | Some run ->
+    (match fields line with
+     | [hdr; meq; mineq; _kkt5] ->
+       (match split ' ' hdr with
+        | [_; id] when id = run.id ->
+          (try
+             let meq = qvec meq and mineq = qvec mineq in
+             (match run.ost with
+              | None -> ()
+              | Some os ->
+                incr total;
+                if not (veq os.o_meq meq && veq os.o_mineq mineq) then
+                  report "MISMATCH" "alo-returned-multipliers" run.id
+                    (Printf.sprintf "model meq=%s mineq=%s :: %s :: %s" (string_of_vec os.o_meq) (string_of_vec os.o_mineq) line run.header);
+                if List.exists (fun m -> not (qle qz m)) mineq then
+                  report "PROPFAIL" "alo-returned-miu-negative" run.id (line ^ " :: " ^ run.header))
+           with Nonfinite -> ())
+        | _ -> failwith ("ALOEND without AL: " ^ line))
+     | _ -> failwith ("bad ALOEND line: " ^ line))
+
+(* ---- extension "outer": the penalty solvers ------------------------------------------------------------------- *)
+type psrun = { pid : string; pparams : ps_params; mutable table : (q list * oeval) list; mutable pst : ps_state;
+               mutable pdead : bool; mutable piters : int; pheader : string }
+let pcur : psrun option ref = ref None
+
+let oeval_of fx ceq cineq valid = { oe_fx = qf fx; oe_ceq = qvec ceq; oe_cineq = qvec cineq; oe_valid = valid = "1" }
+let oeval_eq a b = qeq a.oe_fx b.oe_fx && veq a.oe_ceq b.oe_ceq && veq a.oe_cineq b.oe_cineq && a.oe_valid = b.oe_valid
+
+(* the evaluation of the ORIGINAL function: the values the harness reports for the points the loop visits *)
+let orig_of run = fun x ->
+  match List.find_opt (fun (y, _) -> veq x y) run.table with
+  | Some (_, ev) -> ev
+  | None -> failwith "orig: unknown point"
+
+let check_ps line =
+  pcur := None;
+  let body = List.hd (split_str " :: " line) in
+  match fields body with
+  | [hdr; _kind; eps; eta; penalty0; eps0; epsk; max_outers; x0; fx0; ceq0; cineq0; valid0; _descr] ->
+    let id = (match split ' ' hdr with [_; id] -> id | _ -> failwith "bad PS header") in
+    (try
+       let params = { ps_eps = qf eps; ps_eta = qf eta; ps_penalty0 = qf penalty0; ps_eps0 = qf eps0; ps_epsK = qf epsk;
+                      ps_max_outers = B.big_int_of_int (int_of_string max_outers) } in
+       let x0 = qvec x0 in
+       let ev0 = (try oeval_of fx0 ceq0 cineq0 valid0 with Nonfinite -> { oe_fx = qz; oe_ceq = []; oe_cineq = []; oe_valid = false }) in
+       let dummy = ps_init (fun _ -> ev0) params x0 in
+       let run = { pid = id; pparams = params; table = [(x0, ev0)]; pst = dummy; pdead = false; piters = 0; pheader = line } in
+       pcur := Some run;
+       incr ps_runs
+     with Nonfinite -> incr skipped)
+  | _ -> failwith ("bad PS line: " ^ line)
+
+let check_psit line =
+  match !pcur with
+  | None -> ()
+  | Some run when run.pdead -> ()
+  | Some run ->
+    (match split_str " = " line with
+     | [lhs; rhs] ->
+       (match fields lhs, fields rhs with
+        | [hdr; penalty; ok; cx; fx; ceq; cineq; bvalid], [conv; stop; status] ->
+          let id = (match split ' ' hdr with [_; id; _] -> id | _ -> failwith "bad PSIT header") in
+          if id <> run.pid then failwith ("PSIT without PS: " ^ line);
+          (try
+             let ok = ok = "1" in
+             let penalty = qf penalty in
+             let e = { pe_x = (if ok then qvec cx else []); pe_ok = ok } in
+             if ok then begin
+               let ev = (try oeval_of fx ceq cineq bvalid with Nonfinite ->
+                   if bvalid = "1" then raise Nonfinite else { oe_fx = qz; oe_ceq = []; oe_cineq = []; oe_valid = false }) in
+               run.table <- (e.pe_x, ev) :: run.table
+             end;
+             let orig = orig_of run in
+             let s = run.pst in
+             incr total; incr ps_steps;
+             run.piters <- run.piters + 1;
+             let bad what detail = report "MISMATCH" what id (detail ^ " :: " ^ line ^ " :: " ^ run.pheader) in
+             if not (ps_running run.pparams s) then bad "ps-extra-iteration" "the model's loop had already ended";
+             if not (qeq s.q_penalty penalty) then bad "ps-penalty" ("model=" ^ string_of_q s.q_penalty);
+             let s = { s with q_penalty = penalty } in
+             if ok then begin
+               let mconv = ps_step_converged rops_ieee run.pparams s e in
+               if mconv <> (conv = "1") then bad "ps-converged" (Printf.sprintf "model=%b" mconv)
+             end;
+             let s' = ps_step rops_ieee orig run.pparams s e in
+             if s'.q_stopped <> (stop = "1") then bad "ps-stop" (Printf.sprintf "model=%b" s'.q_stopped);
+             if s'.q_stopped && status_code s'.q_status <> int_of_string status then
+               bad "ps-status" (Printf.sprintf "model=%d" (status_code s'.q_status));
+             run.pst <- s'
+           with Nonfinite -> (run.pdead <- true; incr skipped))
+        | _ -> failwith ("bad PSIT line: " ^ line))
+     | _ -> failwith ("bad PSIT line: " ^ line))
+
+let check_psend line =
+  match !pcur with
+  | None -> ()
+  | Some run when run.pdead -> pcur := None
+  | Some run ->
+    (match fields line with
+     | [hdr; status; x; fx; ceq; cineq; valid; niters] ->
+       let id = (match split ' ' hdr with [_; id] -> id | _ -> failwith "bad PSEND header") in
+       if id <> run.pid then failwith ("PSEND without PS: " ^ line);
+       (try
+          let s = run.pst in
+          incr total;
+          let bad what detail = report "MISMATCH" what id (detail ^ " :: " ^ line ^ " :: " ^ run.pheader) in
+          if run.piters <> int_of_string niters then bad "ps-iterations" "";
+          if List.length s.q_trace <> run.piters then bad "ps-trace" (Printf.sprintf "model made %d inner solves" (List.length s.q_trace));
+          if B.gt_big_int (B.big_int_of_int (List.length s.q_trace)) run.pparams.ps_max_outers then bad "ps-too-many-solves" "";
+          if ps_running run.pparams s then bad "ps-early-exit" "the model's loop would go on";
+          if status_code s.q_status <> int_of_string status then bad "ps-final-status" (Printf.sprintf "model=%d" (status_code s.q_status));
+          if not (veq s.q_x (qvec x)) then bad "ps-final-x" ("model=" ^ string_of_vec s.q_x);
+          (match (try Some (oeval_of fx ceq cineq valid) with Nonfinite -> None) with
+           | Some ev -> if not (oeval_eq s.q_eval ev) then bad "ps-final-state" "the returned state is not the original function's evaluation at the last usable inner solution"
+           | None -> if s.q_eval.oe_valid then bad "ps-final-state" "non-finite returned state, valid in the model")
+        with Nonfinite -> incr skipped);
+       pcur := None
+     | _ -> failwith ("bad PSEND line: " ^ line))
 
 let check_alit line =
   match !cur with
@@ -288,7 +488,9 @@ let check_alit line =
              if s'.s_stopped <> (stop = "1") then bad "al-stop" (Printf.sprintf "model=%b" s'.s_stopped);
              if s'.s_stopped && status_code s'.s_status <> int_of_string status then
                bad "al-status" (Printf.sprintf "model=%d" (status_code s'.s_status));
-             run.st <- Some s'
+             run.st <- Some s';
+             (try check_alo_step run e ro old (conv = "1") (stop = "1") (qvec bx) (int_of_string status) outer line
+              with Nonfinite -> run.odead <- true)
            with Nonfinite -> (run.dead <- true; incr skipped))
         | _ -> failwith ("bad ALIT line: " ^ line))
      | _ -> failwith ("bad ALIT line: " ^ line))
@@ -334,11 +536,17 @@ let () =
        try
          if starts "PEN " then check_pen line
          else if starts "STATE " then check_state line
+         else if starts "ALOIT " then check_aloit line
+         else if starts "ALOEND " then check_aloend line
+         else if starts "ALO " then check_alo line
+         else if starts "PSIT " then check_psit line
+         else if starts "PSEND " then check_psend line
+         else if starts "PS " then check_ps line
          else if starts "ALIT " then check_alit line
          else if starts "ALEND " then check_alend line
          else if starts "AL " then check_al line
        with Nonfinite -> incr skipped
      done
    with End_of_file -> ());
-  Printf.printf "MODEL-DONE checked=%d mismatches=%d skipped_nonfinite=%d exact_cases=%d al_runs=%d al_steps=%d\n"
-    !total !mism !skipped !exact_cases !al_runs !al_steps
+  Printf.printf "MODEL-DONE checked=%d mismatches=%d skipped_nonfinite=%d exact_cases=%d al_runs=%d al_steps=%d alo_steps=%d alo_ro1_exact=%d ps_runs=%d ps_steps=%d\n"
+    !total !mism !skipped !exact_cases !al_runs !al_steps !alo_steps !alo_ro1_exact !ps_runs !ps_steps
